@@ -997,8 +997,16 @@ def unwrap_doc(rng, ds, de, cfg, unit, depth, tag_units, first_line, k_between=N
     inner = []
     for j in range(max(0, nb - 2)):
         if j == 0:
-            extra = rng.choice([unit, unit + unit, "", " "])
-            inner.append(ind + extra + rng.choice(["foo();", "あ = 1", "x"]))
+            c0 = rng.random()
+            if c0 < 0.7 or not ind:
+                extra = rng.choice([unit, unit + unit, "", " "])
+                inner.append(ind + extra + rng.choice(["foo();", "あ = 1", "x"]))
+            elif c0 < 0.8:
+                inner.append("")
+            else:
+                # first inner line indented less than the tag, with blanks / multi-byte text at the tag's column
+                short = ind[:rng.randint(0, len(ind) - 1)]
+                inner.append(short + rng.choice(["do it", "x\t= 1", "あ x", "a  b  c", "é é é"]))
         else:
             c = rng.random()
             if c < 0.6:
